@@ -51,10 +51,15 @@ def tree_height(t):
     return 1 + max(tree_height(e[2]) for e in t[1])
 
 
+def cval(c):
+    # complex coefficients are written as strings in cases (replay files are JSON)
+    return complex(c) if isinstance(c, str) else c
+
+
 def build_tree_node(t):
     if t[0] == 'leaf':
         return OpTreeNode([], 0)
-    return OpTreeNode([OpTreeEdge(o, c, build_tree_node(ch)) for (o, c, ch) in t[1]], t[0])
+    return OpTreeNode([OpTreeEdge(o, cval(c), build_tree_node(ch)) for (o, c, ch) in t[1]], t[0])
 
 
 def tree_poly(t, remaining):
@@ -65,7 +70,7 @@ def tree_poly(t, remaining):
         raise OutOfDomain()
     p = {}
     for (o, c, ch) in t[1]:
-        p = sym.padd(p, sym.pconcat({(o,): sym.frac(c)}, tree_poly(ch, remaining - 1)))
+        p = sym.padd(p, sym.pconcat({(o,): sym.frac(cval(c))}, tree_poly(ch, remaining - 1)))
     return p
 
 
@@ -139,7 +144,7 @@ def run_tree_case(case, ctx):
         return
     ctx.check(graph.length == L, 'graph_length', graph.length)
     got = sym.graph_poly(graph)
-    ctx.obs(sorted((w, float(c)) for w, c in got.items()))
+    ctx.obs(sorted((w, complex(c)) for w, c in got.items()))
     ctx.check(sym.pequal(got, ref), 'graph_equals_sum_of_padded_trees', sym.pdiff(got, ref))
     dense_checks(ctx, graph, ref, L, 'tree')
     # dense meaning of the tree itself (unpadded, height = own height)
@@ -246,7 +251,7 @@ def run_aut_case(case, ctx):
         return
     ctx.check(graph.length == L, 'graph_length', graph.length)
     got = sym.graph_poly(graph)
-    ctx.obs(sorted((w, float(c)) for w, c in got.items()))
+    ctx.obs(sorted((w, complex(c)) for w, c in got.items()))
     ctx.check(sym.pequal(got, ref), 'graph_equals_sum_over_automaton_paths', sym.pdiff(got, ref))
     if L <= 3:
         dense_checks(ctx, graph, ref, L, 'automaton')
@@ -291,6 +296,10 @@ def spaces(tier, seed):
             Space('tree_pairs_near_equal', core.chunked(_pair_cases([2], [1.0, 1.0 + 2.0 ** -27]), 500), run_case=run_tree_case, sig=sig,
                   bounds={'height<=': 1, 'L': [2], 'coeffs': [1.0, 1.0 + 2.0 ** -27],
                           'what': 'coefficients that are equal only under a tolerant comparison (from_optrees ends with simplify)'}),
+            Space('tree_pairs_complex', core.chunked(_pair_cases([2], [1.0, '1j', '-1j']), 500), run_case=run_tree_case, sig=sig,
+                  bounds={'height<=': 1, 'L': [2], 'coeffs': [1.0, '1j', '-1j'], 'what': 'complex coefficients: sums that cancel exactly or stay complex'}),
+            Space('trees_complex', core.chunked(_tree_cases(2, [2, 3], ['(0.5-0.5j)']), 500), run_case=run_tree_case, sig=sig,
+                  bounds={'height<=': 2, 'L': [2, 3], 'coeffs': ['(0.5-0.5j)']}),
             Space('automata2', core.chunked(_aut_cases(2, EDGE_ALPH, [1, 2, 3, 4], [[0, 1], [0, 0]], parallel=True), 300), run_case=run_aut_case, sig=sig,
                   bounds={'nodes': 2, 'edge_alphabet': EDGE_ALPH + ['a+cb parallel', 'a+a parallel'], 'L': [1, 2, 3, 4], 'terminals': [[0, 1], [0, 0]]}),
             Space('automata3', core.chunked(_aut_cases(3, ['none', 'a', 'act'], [1, 2, 3, 4], [[0, 1]]), 500), run_case=run_aut_case, sig=sig,
@@ -307,6 +316,10 @@ def spaces(tier, seed):
             Space('tree_pairs_near_equal', core.chunked(_pair_cases([2], [1.0, 1.0 + 2.0 ** -27]), 500), run_case=run_tree_case, sig=sig,
                   bounds={'height<=': 1, 'L': [2], 'coeffs': [1.0, 1.0 + 2.0 ** -27],
                           'what': 'coefficients that are equal only under a tolerant comparison (from_optrees ends with simplify)'}),
+            Space('tree_pairs_complex', core.chunked(_pair_cases([2, 3], [1.0, '1j', '-1j']), 500), run_case=run_tree_case, sig=sig,
+                  bounds={'height<=': 1, 'L': [2, 3], 'coeffs': [1.0, '1j', '-1j'], 'what': 'complex coefficients: sums that cancel exactly or stay complex'}),
+            Space('trees_complex', core.chunked(_tree_cases(2, [2, 3], ['(0.5-0.5j)']), 500), run_case=run_tree_case, sig=sig,
+                  bounds={'height<=': 2, 'L': [2, 3], 'coeffs': ['(0.5-0.5j)']}),
             Space('automata2', core.chunked(_aut_cases(2, EDGE_ALPH, [1, 2, 3, 4, 5], [[0, 1], [0, 0]], parallel=True), 300), run_case=run_aut_case, sig=sig,
                   bounds={'nodes': 2, 'edge_alphabet': EDGE_ALPH, 'L': [1, 2, 3, 4, 5], 'terminals': [[0, 1], [0, 0]]}),
             Space('automata3', core.chunked(_aut_cases(3, EDGE_ALPH, [1, 2, 3], [[0, 1]]), 2000), run_case=run_aut_case, sig=sig,
